@@ -97,3 +97,22 @@ def snapshot(root: str) -> Dict[str, object]:
             except OSError:
                 out[os.path.relpath(fp, r)] = ("f", None)
     return out
+
+
+def restore(root: str, snap: Dict[str, object]):
+    """Makes the tree under root identical to the snapshot."""
+    r = Path(root)
+    if r.exists():
+        shutil.rmtree(r)
+    r.mkdir(parents=True, exist_ok=True)
+    for rel in sorted(snap):
+        v = snap[rel]
+        p = r / rel
+        if v[0] == "d":
+            p.mkdir(parents=True, exist_ok=True)
+    for rel, v in snap.items():
+        if v[0] == "f":
+            p = r / rel
+            p.parent.mkdir(parents=True, exist_ok=True)
+            with open(p, "wb") as fh:
+                fh.write(v[1] or b"")
